@@ -5,7 +5,7 @@ import pyref
 FAMILY = "hll"
 CORR = "Hll"
 FAMNUM = 6
-ORACLES = {"prop_ok": 0, "union_ok": 1}
+ORACLES = {"prop_ok": 0, "union_ok": 1, "twin_ok": 2, "layout_ok": 3, "foreign_ok": 4, "no_panic": 5}
 GEN_MODULES = [("GenHll",
                 ["hll/mod.rs", "hll/serialization.rs", "hll/container.rs", "hll/list.rs", "hll/hash_set.rs",
                  "hll/aux_map.rs", "hll/array4.rs", "hll/array6.rs", "hll/coupon_mapping.rs", "hll/estimator.rs", "hll/sketch.rs"],
@@ -21,6 +21,7 @@ GEN_MODULES = [("GenHll",
                 {"hll/coupon_mapping.rs": ["X_ARR", "Y_ARR"], "hll/estimator.rs": ["HIP_LB", "HIP_UB"]},
                 {"hll/estimator.rs": ["get_rel_err"]})]
 OPNAMES = {1: "update", 2: "coupon", 3: "dump", 4: "estimate", 5: "bounds", 6: "raw", 7: "serialize",
+           8: "roundtrip", 9: "deserialize",
            10: "u.new", 11: "u.coupon", 12: "u.update", 13: "u.mark_ooo", 14: "union.update", 15: "union.update_value",
            16: "union.reset", 17: "u.dump", 18: "union.to_sketch", 19: "union.to_sketch.estimate", 20: "union.info",
            21: "union.estimate"}
@@ -329,19 +330,341 @@ def gen_union_case(rng, cid, tier):
     return Case(cid, [lg_max, 1], ops, tag=tag)
 
 
+# ------------------------------------------------------------------ codec cases (C11/C12/C13/C14/C18 parts)
+import struct
+
+
+def feed_ops(rng, lgk, tier, kinds=None):
+    """the feed operations (codes 1, 2) of one of the C02 stream kinds"""
+    b = Builder(lgk)
+    kind = rng.choice(kinds or [stream_hashed, stream_hashed, stream_random_coupons, stream_set_collisions, stream_cur_min,
+                                stream_aux_collisions])
+    if kind is stream_cur_min and lgk > 9:
+        kind = stream_hashed
+    kind(rng, b, 0, lgk, tier)
+    return [(c, a) for (c, a) in b.ops if c in (1, 2)], kind.__name__[7:]
+
+
+def gen_codec_case(rng, cid, tier, focus):
+    """two groups fed the same stream in the same order; group 0 is forked through
+    serialize/deserialize at random points (focus codec); images observed (layout)"""
+    lgk = rng.choice([4, 5, 6, 7, 8, 8, 9, 10, 10, 11] + ([12] if rng.random() < 0.4 else []) +
+                     ([13, 14, 15, 16] if tier != "quick" else []))
+    feed, kname = feed_ops(rng, lgk, tier)
+    if len(feed) > 6000:
+        feed = feed[:6000]
+    ops = []
+    marks = set(thresholds(lgk))
+    n = 0
+    big = lgk > 10
+
+    def look():
+        types = (0, 1, 2) if not big else (rng.randrange(3),)
+        if focus == "codec":
+            for t in rng.sample((0, 1, 2), rng.choice([1, 2, 3])):
+                ops.append((8, [0, t]))
+        for g in (0, 1):
+            for t in types:
+                ops.append((3, [g, t]))
+            for t in (0, 1, 2):
+                ops.append((4, [g, t]))
+            if rng.random() < 0.5:
+                for t in (0, 1, 2):
+                    ops.append((5, [g, t]))
+            for t in types:
+                ops.append((7, [g, t]))
+
+    look()
+    seen = set()
+    for (c, a) in feed:
+        ops.append((c, [0] + a[1:]))
+        ops.append((c, [1] + a[1:]))
+        seen.add(a[-1])
+        n = len(seen)
+        r = rng.random()
+        if (n in marks or n + 1 in marks) and r < 0.5 or r < (0.01 if big else 0.04):
+            look()
+    look()
+    return Case(cid, [lgk], ops, tag="hll%s-%s-lgk%d" % (focus, kname, lgk))
+
+
+def gen_size_case(rng, cid, tier):
+    """image sizes after every power-of-two prefix of a growing stream (C18)"""
+    lgk = rng.choice([4, 6, 8, 10, 11, 12] + ([14, 16, 18] if tier != "quick" else []))
+    top = (1 << 13) if tier == "quick" else (1 << 17)
+    ops = []
+    base = rng.getrandbits(50)
+    mode = rng.choice(["distinct", "repeat", "coupon"])
+    nxt = 1
+    for i in range(1, top + 1):
+        if mode == "coupon":
+            c = cp(rng.getrandbits(26), rand_value(rng))
+            ops.append((2, [0, c]))
+        else:
+            item = base + (i if mode == "distinct" else rng.randrange(1 + i // 3))
+            ops.append((1, [0, item, coupon_of_item(item)]))
+        if i == nxt:
+            nxt *= 2
+            for t in (0, 1, 2):
+                ops.append((7, [0, t]))
+    return Case(cid, [lgk], ops, tag="hllsize-%s-lgk%d" % (mode, lgk))
+
+
+# ---- the spec encoder (written from DESIGN.md Appendix A; the Coq twin is Spec/HllLayout.v) ----
+def f64bits(x):
+    return struct.unpack("<Q", struct.pack("<d", x))[0]
+
+
+def le(n, x):
+    return [(x >> (8 * i)) & 255 for i in range(n)]
+
+
+def u32l(vals):
+    out = []
+    for v in vals:
+        out += le(4, v)
+    return out
+
+
+def java_set_table(lg_arr, coupons):
+    """the coupon hash table of the Java/C++ implementations (start = c & mask, odd stride from the slot bits)"""
+    size = 1 << lg_arr
+    tab = [0] * size
+    for c in coupons:
+        p = c & (size - 1)
+        stride = ((c & M26) >> lg_arr) | 1
+        while tab[p] != 0 and tab[p] != c:
+            p = (p + stride) & (size - 1)
+        tab[p] = c
+    return tab
+
+
+def java_aux_table(lg_arr, lgk, pairs):
+    size = 1 << lg_arr
+    tab = [0] * size
+    for (slot, v) in pairs:
+        p = slot & (size - 1)
+        stride = (slot >> lg_arr) | 1
+        while tab[p] != 0:
+            p = (p + stride) & (size - 1)
+        tab[p] = (v << 26) | slot
+    return tab
+
+
+LG_AUX = [0, 2, 2, 2, 2, 2, 2, 3, 3, 3, 4, 4, 5, 5, 6, 7, 8, 9, 10, 11, 12, 13, 14, 15, 16, 17, 18]
+
+
+def enc_list(compact, lgk, typ, cs):
+    n = len(cs)
+    flags = (4 if n == 0 else 0) | (8 if compact else 0)
+    pre = [2, 1, 7, lgk, 3, flags, n, 0 | (typ << 2)]
+    return pre + (u32l(cs) if compact else u32l(cs + [0] * (8 - n)))
+
+
+def enc_set(compact, lgk, typ, lg_arr, cs, rng):
+    pre = [3, 1, 7, lgk, lg_arr, 8 if compact else 0, 0, 1 | (typ << 2)]
+    if compact:
+        body = list(cs)
+        rng.shuffle(body)
+    else:
+        body = java_set_table(lg_arr, cs)
+    return pre + le(4, len(cs)) + u32l(body)
+
+
+def enc_hll(compact, ooo, lgk, typ, regs, hip, q0, q1, lg_arr_byte=None, aux_as_table=False):
+    k = 1 << lgk
+    cur_min = 0
+    aux = []
+    if typ == 0:
+        cur_min = min(regs)
+        aux = [(s, v) for s, v in enumerate(regs) if v - cur_min >= 15]
+        nib = [min(v - cur_min, 15) for v in regs]
+        block = [nib[2 * i] | (nib[2 * i + 1] << 4) for i in range(k // 2)]
+        num = sum(1 for v in regs if v == cur_min)
+    elif typ == 1:
+        total = 0
+        for s, v in enumerate(regs):
+            total |= v << (6 * s)
+        block = le(3 * k // 4 + 1, total)
+        num = sum(1 for v in regs if v == 0)
+    else:
+        block = list(regs)
+        num = sum(1 for v in regs if v == 0)
+    lg_aux = LG_AUX[lgk]
+    while 4 * len(aux) > 3 * (1 << lg_aux):
+        lg_aux += 1
+    lg_arr = lg_arr_byte if lg_arr_byte is not None else (lg_aux if (typ == 0 and aux) else 0)
+    flags = (8 if compact else 0) | (16 if ooo else 0)
+    pre = [10, 1, 7, lgk, lg_arr, flags, cur_min, 2 | (typ << 2)]
+    pre += le(8, f64bits(hip)) + le(8, f64bits(q0)) + le(8, f64bits(q1)) + le(4, num) + le(4, len(aux))
+    if typ == 0 and aux:
+        if aux_as_table:
+            tail = u32l(java_aux_table(lg_arr, lgk, aux))
+        else:
+            tail = u32l([(v << 26) | s for (s, v) in aux])
+    else:
+        tail = []
+    return pre + block + tail
+
+
+def kxq_of(regs):
+    q0 = sum(2.0 ** -v for v in regs if v < 32)
+    q1 = sum(2.0 ** -v for v in regs if v >= 32)
+    return q0, q1
+
+
+def rand_regs(rng, lgk, typ):
+    k = 1 << lgk
+    style = rng.choice(["sparse", "dense", "high", "curmin"])
+    if style == "sparse":
+        regs = [0] * k
+        for s in rng.sample(range(k), max(1, k // 8)):
+            regs[s] = rand_value(rng)
+    elif style == "dense":
+        regs = [rand_value(rng, 20) for _ in range(k)]
+    elif style == "high":
+        regs = [rng.randint(0, 63) for _ in range(k)]
+    else:
+        base = rng.randint(1, 40)
+        regs = [min(63, base + rand_value(rng, 22) - 1) for _ in range(k)]
+        regs[rng.randrange(k)] = base
+    return regs
+
+
+def foreign_image(rng, tier):
+    """(bytes, variant tag) of a random abstract state in a random variant of the cross-language format"""
+    typ = rng.randrange(3)
+    r = rng.random()
+    if r < 0.2:
+        lgk = rng.randint(4, 21)
+        n = rng.choice([0, 0, 1, 3, 7, rng.randint(0, 7)])
+        cs = list({cp(rng.getrandbits(26), rand_value(rng)) for _ in range(n)})
+        compact = rng.random() < 0.5
+        return enc_list(compact, lgk, typ, cs), "list-%s" % ("compact" if compact else "updatable")
+    if r < 0.45:
+        lgk = rng.choice([8, 9, 10, 12, 14, 16] + ([18, 21] if tier != "quick" else []))
+        lg_arr = rng.randint(5, min(lgk - 3, 9 if tier == "quick" else 12))
+        n = rng.randint(1, 3 * (1 << lg_arr) // 4)
+        if rng.random() < 0.3:
+            n = 3 * (1 << lg_arr) // 4
+        cs = set()
+        low = rng.getrandbits(lg_arr)
+        while len(cs) < n:
+            slot = rng.getrandbits(26)
+            if rng.random() < 0.3:
+                slot = (slot & ~((1 << lg_arr) - 1)) | low        # colliding probe starts
+            cs.add(cp(slot, rand_value(rng)))
+        compact = rng.random() < 0.5
+        return enc_set(compact, lgk, typ, lg_arr, list(cs), rng), "set-%s" % ("compact" if compact else "updatable")
+    lgk = rng.choice([4, 5, 6, 7, 8, 9, 10, 11] + ([12] if rng.random() < 0.3 else []))
+    regs = rand_regs(rng, lgk, typ)
+    ooo = rng.random() < 0.5
+    compact = rng.random() < 0.6
+    q0, q1 = kxq_of(regs)
+    hip = 0.0 if ooo else float(rng.randint(1, 1 << 20)) + rng.random()
+    has_aux = typ == 0 and any(v - min(regs) >= 15 for v in regs)
+    if typ == 0 and has_aux and not compact:
+        # updatable Hll4: the exceptions as a hash table of 1 << lgAuxArr ints
+        return enc_hll(False, ooo, lgk, typ, regs, hip, q0, q1, aux_as_table=True), "upd4aux"
+    lg_arr_byte = rng.choice([None, 0]) if typ == 0 else rng.choice([None, 0])
+    return (enc_hll(compact, ooo, lgk, typ, regs, hip, q0, q1, lg_arr_byte=lg_arr_byte),
+            "hll%d-%s%s" % ([4, 6, 8][typ], "compact" if compact else "updatable", "-ooo" if ooo else ""))
+
+
+def exercise(rng, ops, g, t, lgk_hint):
+    """what is done with a value returned as Ok: query, re-serialize, update, round trip"""
+    ops.append((4, [g, t])); ops.append((5, [g, t])); ops.append((7, [g, t]))
+    for _ in range(rng.choice([0, 3, 40])):
+        ops.append((2, [g, cp(rng.getrandbits(26), rand_value(rng))]))
+    ops.append((3, [g, t])); ops.append((8, [g, t])); ops.append((3, [g, t])); ops.append((4, [g, t]))
+
+
+def gen_foreign_case(rng, cid, tier):
+    ops = []
+    tags = set()
+    for _ in range(rng.choice([1, 2, 3])):
+        img, v = foreign_image(rng, tier)
+        tags.add(v)
+        g, t = rng.randrange(2), rng.randrange(3)
+        ops.append((9, [g, t] + img))
+        ops.append((3, [g, t]))
+        if "upd4aux" not in v:
+            exercise(rng, ops, g, t, img[3])
+    tag = "hllforeign-upd4aux" if "upd4aux" in tags else "hllforeign-" + "+".join(sorted(tags))
+    return Case(cid, [rng.randint(4, 12)], ops, tag=tag)
+
+
+def mutate(rng, img):
+    b = list(img)
+    r = rng.random()
+    if r < 0.25 and b:                                   # bit / byte flips, mostly in the preamble
+        for _ in range(rng.choice([1, 1, 2, 4])):
+            i = rng.randrange(min(len(b), 44)) if rng.random() < 0.7 else rng.randrange(len(b))
+            b[i] = b[i] ^ (1 << rng.randrange(8)) if rng.random() < 0.6 else rng.randrange(256)
+    elif r < 0.5 and b:                                  # boundary values in the lg / count / flag fields
+        for _ in range(rng.choice([1, 1, 2])):
+            i = rng.choice([0, 1, 2, 3, 4, 5, 6, 7, 8, 9, 10, 11, 32, 33, 34, 35, 36, 37, 38, 39])
+            if i < len(b):
+                b[i] = rng.choice([0, 1, 2, 3, 4, 5, 7, 8, 15, 16, 20, 21, 22, 26, 31, 32, 63, 64, 127, 128, 200, 255])
+    elif r < 0.7:                                        # truncation
+        b = b[:rng.randrange(len(b) + 1)]
+    elif r < 0.8:                                        # extension
+        b = b + [rng.randrange(256) for _ in range(rng.choice([1, 4, 100]))]
+    elif r < 0.9 and len(b) > 44:                        # payload damage: registers, aux entries, coupons
+        for _ in range(rng.choice([1, 3, 10])):
+            i = rng.randrange(8, len(b))
+            b[i] = rng.choice([0, 255, 0xF0, 0x0F, rng.randrange(256)])
+    else:                                                # random bytes with a plausible header
+        n = rng.choice([0, 1, 7, 8, 12, 40, 100])
+        b = [rng.randrange(256) for _ in range(n)]
+        if n >= 8 and rng.random() < 0.7:
+            b[1], b[2], b[3] = 1, 7, rng.randint(4, 21)
+            b[0] = rng.choice([2, 3, 10])
+    return b
+
+
+def gen_malformed_case(rng, cid, tier):
+    ops = []
+    for _ in range(rng.choice([2, 3, 5])):
+        img, v = foreign_image(rng, tier)
+        if len(img) > 3000 and rng.random() < 0.7:
+            continue
+        img = mutate(rng, img)
+        g, t = rng.randrange(2), rng.randrange(3)
+        ops.append((9, [g, t] + img))
+        ops.append((3, [g, t]))
+        exercise(rng, ops, g, t, 0)
+    return Case(cid, [rng.randint(4, 12)], ops, tag="hllmalformed")
+
+
 def gen(rng, tier, n=None, focus=None):
     if focus == "union":
         n = n or (120 if tier == "quick" else 1500)
         return [gen_union_case(rng, i, tier) for i in range(n)]
+    if focus in ("codec", "layout"):
+        n = n or (40 if tier == "quick" else 500)
+        return [gen_codec_case(rng, i, tier, focus) for i in range(n)]
+    if focus == "size":
+        n = n or (8 if tier == "quick" else 40)
+        return [gen_size_case(rng, i, tier) for i in range(n)]
+    if focus == "foreign":
+        n = n or (150 if tier == "quick" else 2000)
+        return [gen_foreign_case(rng, i, tier) for i in range(n)]
+    if focus == "malformed":
+        n = n or (200 if tier == "quick" else 4000)
+        return [gen_malformed_case(rng, i, tier) for i in range(n)]
     n = n or (90 if tier == "quick" else 900)
     return [gen_case(rng, i, tier, focus) for i in range(n)]
 
 
 def nontrivial(case, obs):
     """C02: at least two distinct coupons fed and at least one state dump;
-    union cases: at least one non-empty sketch merged and one to_sketch dump"""
+    union cases: at least one non-empty sketch merged and one to_sketch dump;
+    codec cases: an image was written or parsed"""
     if len(case.cfg) >= 2 and case.cfg[1] == 1:
         fed = {a[0] for (c, a) in case.ops if c in (11, 12)}
         return any(c == 14 and a[0] in fed for (c, a) in case.ops) and any(c == 18 for (c, a) in case.ops)
+    if any(c in (7, 8, 9) for (c, a) in case.ops):
+        return True
     cs = {a[-1] for (c, a) in case.ops if c in (1, 2)}
     return len(cs) >= 2 and any(c == 3 for (c, a) in case.ops)
